@@ -47,6 +47,7 @@ def ordering_alphabet(N, W, ids):
         for t in tasks:
             A.append(act("ChMove", n=n, seq=[t]))
             A.append(act("ChMove", n=n, seq=[t], before=t % N + 1, after=t))
+            A.append(act("ChMove", n=n, seq=[t], before=t % N + 1, after=(t + 1) % N + 1))
         for key in (1, 2):
             for rev in (0, 1):
                 A.append(act("ChSort", n=n, key=key, rev=rev))
